@@ -168,6 +168,21 @@ Proof.
 Qed.
 Print Assumptions C04_Twist3_Rxyz_agree.
 
+(* all options at once: SE3.Rx/Ry/Rz(a, 'deg', t=v) has the rotation block of SO3.Rx/Ry/Rz(a, 'deg') and the translation v;
+   the degree constructor is the radian one at deg2rad * a, deg2rad being the double math.pi/180 the code multiplies by *)
+Definition deg2rad : R := 5030569068109113 / 288230376151711744.
+Theorem C04_Rxyz_deg_t : forall (a : R) (v : V3 R),
+  tr_SE3_Rx_deg_t Rops a v = rt2tr3 Rops (tr_SO3_Rx_deg Rops a) v /\
+  tr_SE3_Ry_deg_t Rops a v = rt2tr3 Rops (tr_SO3_Ry_deg Rops a) v /\
+  tr_SE3_Rz_deg_t Rops a v = rt2tr3 Rops (tr_SO3_Rz_deg Rops a) v /\
+  tr_SO3_Rx_deg Rops a = tr_SO3_Rx Rops (deg2rad * a) /\ tr_SO3_Ry_deg Rops a = tr_SO3_Ry Rops (deg2rad * a) /\
+  tr_SO3_Rz_deg Rops a = tr_SO3_Rz Rops (deg2rad * a).
+Proof.
+  intros a v. destruct_tuples. unfold deg2rad.
+  repeat split; autounfold with smgen smlin; sm_simpl; tuple_eq ltac:(ring).
+Qed.
+Print Assumptions C04_Rxyz_deg_t.
+
 Theorem C04_planar_angle : forall t : R,
   tr_SO2_ang Rops t = rot2_cs Rops (cos t) (sin t) /\ tr_SE2_ang Rops t = rt2tr2 Rops (tr_SO2_ang Rops t) (0,0).
 Proof. intros; split; gen_ring. Qed.
